@@ -1,17 +1,19 @@
 #!/usr/bin/env python3
 """tools/run_seeded.py [--tier quick|thorough] [--all-props] ID...   (IDs = directory names under /verif/seeded, default all)
 For each seeded change: verify it in a scratch worktree (baseline demo passes; with patch: test-suite passes, demo fails),
-apply it to /repo, run the property's check (and optionally every check), revert /repo, record the outcome in meta.json."""
+run the property's check (and optionally every check) on that patched worktree (CBI_REPO=<worktree>; with --in-place the
+patch is applied to /repo itself and reverted afterwards), record the outcome in meta.json."""
 import json, os, subprocess, sys, shutil, tempfile
 V = os.path.dirname(os.path.dirname(os.path.abspath(__file__)))
 PY = "/venv/bin/python"
 args = sys.argv[1:]
-tier = "quick"; allprops = False; props_override = None
+tier = "quick"; allprops = False; props_override = None; inplace = False
 while args and args[0].startswith("--"):
     a = args.pop(0)
     if a == "--tier": tier = args.pop(0)
     elif a == "--all-props": allprops = True
     elif a == "--props": props_override = args.pop(0).split(",")
+    elif a == "--in-place": inplace = True      # apply the patch to /repo itself (git apply / checkout) instead of a scratch worktree
 ids = args or sorted(os.listdir(os.path.join(V, "seeded")))
 def sh(cmd, cwd=None, env=None):
     return subprocess.run(cmd, cwd=cwd, env=env, capture_output=True, text=True)
@@ -23,6 +25,7 @@ for sid in ids:
     wt = tempfile.mkdtemp(prefix="cbimon-seeded-", dir="/tmp")
     os.rmdir(wt)
     sh(["git", "-C", "/repo", "worktree", "add", "-q", "--detach", wt, "HEAD"])
+    res = {}
     try:
         env = dict(os.environ, PYTHONPATH=wt)
         b = sh([PY, os.path.join(d, "demo.py")], cwd=wt, env=env).returncode
@@ -38,24 +41,31 @@ for sid in ids:
         if not ok:
             print(f"{sid}: NOT a valid seeded change (baseline demo {b}, patched demo {m}, tests {t})"); continue
         diff = sh(["git", "diff"], cwd=wt).stdout
+        try: os.unlink(os.path.join(wt, "cbi.log"))
+        except OSError: pass
+        props = props_override or ([f"C{i:02d}" for i in range(1, 19)] if allprops else [meta["property"]])
+        if not inplace:
+            # the checks analyse the patched scratch worktree (CBI_REPO); /repo itself is never touched
+            for p in props:
+                r = sh([os.path.join(V, "check"), p], cwd=V, env=dict(os.environ, VERIF_TIER=tier, CBI_REPO=wt))
+                res[p] = r.returncode
     finally:
         sh(["git", "-C", "/repo", "worktree", "remove", "--force", wt])
         shutil.rmtree(wt, ignore_errors=True)
-    pfile = os.path.join("/dev/shm", f"seeded-{sid}.diff")
-    open(pfile, "w").write(diff)
-    if sh(["git", "-C", "/repo", "apply", pfile]).returncode:
-        print(f"{sid}: cannot apply to /repo"); continue
-    try:
-        props = props_override or ([f"C{i:02d}" for i in range(1, 19)] if allprops else [meta["property"]])
-        res = {}
-        for p in props:
-            r = sh([os.path.join(V, "check"), p], cwd=V, env=dict(os.environ, VERIF_TIER=tier))
-            res[p] = r.returncode
-        meta["detection"][tier] = res
-        caught = [p for p, rc in res.items() if rc == 1]
-        print(f"{sid}: {tier}: own={res.get(meta['property'])} caught_by={caught} others={ {p: rc for p, rc in res.items() if rc not in (0, 1)} }")
-    finally:
-        sh(["git", "-C", "/repo", "checkout", "--", "."])
-        try: os.unlink("/repo/cbi.log")
-        except OSError: pass
+    if inplace:
+        pfile = os.path.join("/dev/shm", f"seeded-{sid}.diff")
+        open(pfile, "w").write(diff)
+        if sh(["git", "-C", "/repo", "apply", pfile]).returncode:
+            print(f"{sid}: cannot apply to /repo"); continue
+        try:
+            for p in props:
+                r = sh([os.path.join(V, "check"), p], cwd=V, env=dict(os.environ, VERIF_TIER=tier))
+                res[p] = r.returncode
+        finally:
+            sh(["git", "-C", "/repo", "checkout", "--", "."])
+            try: os.unlink("/repo/cbi.log")
+            except OSError: pass
+    meta["detection"][tier] = res
+    caught = [p for p, rc in res.items() if rc == 1]
+    print(f"{sid}: {tier}: own={res.get(meta['property'])} caught_by={caught} others={ {p: rc for p, rc in res.items() if rc not in (0, 1)} }")
     json.dump(meta, open(os.path.join(d, "meta.json"), "w"), indent=1)
